@@ -437,6 +437,8 @@ def _second_is_compatible(cap2, cap1, problem, use_int) -> bool:
         return False
     if cap2["linear_only"] and not problem["linear"]:
         return False
+    if cap2["linear_only"] and problem["cons"] and not problem["feasible_x0"]:
+        return False  # an infeasible LP (ScipyLinprog fails on the solver's empty answer) is outside the property
     if use_int and not cap2["int"]:
         return False
     return True
